@@ -49,15 +49,24 @@ func parseWord(src string) (*syntax.Word, string) {
 	return words[0], ""
 }
 
+// printParts renders word parts. structural=true: literals by their Value, BraceExp as
+// "{" elems joined by "," or ".." "}", every other part through the real printer.
+// structural=false: the whole word through the real syntax.Printer.
 func printParts(parts []syntax.WordPart, structural bool) string {
 	var sb strings.Builder
 	pr := syntax.NewPrinter()
-	for i := 0; i < len(parts); i++ {
-		if br, ok := parts[i].(*syntax.BraceExp); ok && structural {
+	if !structural {
+		var buf bytes.Buffer
+		pr.Print(&buf, &syntax.Word{Parts: parts})
+		return buf.String()
+	}
+	for _, part := range parts {
+		switch x := part.(type) {
+		case *syntax.BraceExp:
 			sb.WriteByte('{')
-			for k, e := range br.Elems {
+			for k, e := range x.Elems {
 				if k > 0 {
-					if br.Sequence {
+					if x.Sequence {
 						sb.WriteString("..")
 					} else {
 						sb.WriteByte(',')
@@ -66,20 +75,13 @@ func printParts(parts []syntax.WordPart, structural bool) string {
 				sb.WriteString(printParts(e.Parts, true))
 			}
 			sb.WriteByte('}')
-			continue
+		case *syntax.Lit:
+			sb.WriteString(x.Value)
+		default:
+			var buf bytes.Buffer
+			pr.Print(&buf, &syntax.Word{Parts: []syntax.WordPart{part}})
+			sb.WriteString(buf.String())
 		}
-		// maximal run of non-brace parts goes through the real printer as one word
-		j := i
-		for j < len(parts) {
-			if _, ok := parts[j].(*syntax.BraceExp); ok && structural {
-				break
-			}
-			j++
-		}
-		var buf bytes.Buffer
-		pr.Print(&buf, &syntax.Word{Parts: parts[i:j]})
-		sb.WriteString(buf.String())
-		i = j - 1
 	}
 	return sb.String()
 }
